@@ -54,6 +54,7 @@ fn drive(args: &[String]) {
     "c15" => c15::drive(vectors.expect("--vectors"), out, thorough, seed),
     "c16" => c16::drive(corpus, seed, out, thorough),
     "c17" => c17::drive(seed, out, thorough),
+    "c18" => c18::drive(vectors, seed, out, thorough),
     "rules" => rules::drive(opt(args, "--universe").expect("--universe"), vectors.expect("--vectors"), out),
     "c20" => c20::drive(vectors.expect("--vectors"), out),
     _ => {
